@@ -196,7 +196,7 @@ ROUND10 = {
     "C07": " Round 10: deterministic runs whose time points lie hundreds of thousands of solver steps apart.",
     "C08": " Round 10: an interface kept while the model is initialised again and its values change.",
     "C10": " Round 10: delay queue finer than the volume step in the delay+volume simulator.",
-    "C11": " Round 10: division reported at the last grid time (known finding for the delay+volume simulator, asserted for the volume simulator).",
+    "C11": " Round 10: division reported at the last grid time (known finding for the delay+volume simulator - its mechanism proved as dv_tie_is_queue_step / dv_tie_at_last_time_ends_undivided - asserted for the volume simulator).",
     "C15": " Round 10: two estimated parameters with the prior declared in both orders.",
     "C16": " Round 10: check_prior on values for every interface class with and without log_space_parameters.",
     "C18": " Round 10: explicitly time-dependent rates at t = 0 and later, every scheme, module functions and object.",
